@@ -13,6 +13,8 @@ CONSTANTS
   MaxObjs = 8
   Tag = "C03"
   SoftTargets <- C03Soft
+  HardTargets <- AllPaths
+  SureCases = FALSE
   OnlyLastMayFail = TRUE
 SPECIFICATION LSpec
 INVARIANTS TypeOK WellFormed OnlyGroupsHaveLinks Emit
